@@ -207,15 +207,31 @@ def edited_tree(tree: M.Schema, kind: str, idx: int) -> M.Schema:
     if kind == "strip":
         sch.decls = [d for d in sch.decls if isinstance(d, M.Mod)] + [M.Enum("Zq9Keep", [("K", 0)])]
     else:
-        out = []
-        for d in sch.decls:
-            if isinstance(d, M.Enum):
-                out.append(M.Struct(d.name, [M.Field("swapped", 0, M.U(8))]))
-            elif isinstance(d, M.Struct) and all(not isinstance(x, (M.Impl, M.Service)) for x in sch.decls):
-                out.append(M.Enum(d.name, [("Swapped", 0)]))
-            else:
-                out.append(d)
-        sch.decls = out
+        # every enum of the module becomes a struct of the same name; references to it (anywhere in the tree) then
+        # are struct references
+        swapped = {d.name for d in sch.decls if isinstance(d, M.Enum)}
+        sch.decls = [M.Struct(d.name, [M.Field("swapped", 0, M.U(8))]) if isinstance(d, M.Enum) else d for d in sch.decls]
+
+        def fix(ty: M.Type) -> M.Type:
+            if isinstance(ty, M.EnumRef) and ty.name in swapped:
+                return M.StructRef(ty.name)
+            if isinstance(ty, M.Arr):
+                return M.Arr(fix(ty.t), ty.n)
+            if isinstance(ty, M.Dyn):
+                return M.Dyn(fix(ty.t))
+            if isinstance(ty, M.Opt):
+                return M.Opt(fix(ty.t))
+            return ty
+
+        def walk(sc_: M.Schema) -> None:
+            for d in sc_.decls:
+                if isinstance(d, M.Struct):
+                    for f in d.fields:
+                        f.type = fix(f.type)
+                elif isinstance(d, M.Mod) and d.schema is not None:
+                    walk(d.schema)
+
+        walk(t)
     return t
 
 
@@ -279,10 +295,15 @@ def check_session(tree: M.Schema, steps: List[Tuple[str, int, str, int]], rec: A
             got, single = res.to_dict(), res2.to_dict()
             if not ET.strict_eq(got, single):
                 return f"{where}: (a) split != single-file at " + ET.first_diff(got, single)
+            want = ET.to_dict_expected(cur)
+            if not ET.strict_eq(got, want):
+                return f"{where}: (a) split tree != description at " + ET.first_diff(got, want)
     return None
 
 
-def run_shard(ctx: Ctx) -> None:
+def run_sessions(ctx: Ctx, quick: int, thorough: int) -> None:
+    """The edit-session sub-run, shared with C07 (the tree is the image of the text that is on disk NOW) and C08 (no
+    dangling or mis-kinded reference survives an edit of the module that declared the type)."""
     rec = ctx.rec
 
     def body_session(c: Any) -> None:
@@ -297,7 +318,12 @@ def run_shard(ctx: Ctx) -> None:
             raise Violation(msg, {"kind": "session", "tree_pickle": pickle_b64(tree), "steps": [list(x) for x in steps],
                                   "files": files})
 
-    hyp_run(ctx, session(), body_session, ctx.n(800, 8000), tag="session")
+    hyp_run(ctx, session(), body_session, ctx.n(quick, thorough), tag="session")
+
+
+def run_shard(ctx: Ctx) -> None:
+    rec = ctx.rec
+    run_sessions(ctx, 480, 8000)
 
     def body(c: Any) -> None:
         tree, fault, rel = c
